@@ -436,6 +436,80 @@ def mk_first_render(reach):
     return h
 
 
+def mk_two_same_endpoint(reach):
+    """two registrations from ONE endpoint (different tokens): what ends one of them leaves the other alone -- in particular its
+    notification waiting behind the first in the per-endpoint NSTART queue is still delivered"""
+    from vf import stack
+    from vf.simloop import SimLoop
+    from aiocoap.message import Message
+    from aiocoap import resource
+    from aiocoap.numbers.types import CON, NON, ACK, RST
+    from aiocoap.numbers.codes import GET, EMPTY
+    stack.configure(ack_timeout=2000, ack_random_factor=1, max_retransmit=1)
+
+    class Obs(resource.ObservableResource):
+        def __init__(self):
+            super().__init__()
+            self.state = 0
+            self.counts = []
+
+        def update_observation_count(self, n):
+            self.counts.append(n)
+
+        async def render_get(self, request):
+            return Message(payload=b"s%d" % self.state)
+
+    def h(how: int, later_change: bool, order: bool) -> None:
+        assert 0 <= how <= 2
+        with SimLoop() as loop:
+            res = Obs()
+            site = resource.Site()
+            site.add_resource(["o"], res)
+            S = stack.StackS(loop, site)
+            src = stack.R0
+            toks = [b"\x09", b"\x0a"] if order else [b"\x0a", b"\x09"]
+            for i, tk in enumerate(toks):
+                S.deliver(Message(code=GET, _mtype=CON, _mid=501 + i, _token=tk, uri_path=["o"], observe=0).encode(), src)
+                loop.advance(5)
+            assert res.counts[-1] == 2
+            res.state += 1
+            res.updated_state()
+            loop.run_ready()
+            act = [k for k in S.mman._active_exchanges if k[0].sockaddr[:2] == src[:2]]
+            assert len(act) == 1
+            inflight = [Message.decode(d) for (d, a, tm) in S.tr.sent if Message.decode(d).mid == act[0][1]][0]
+            ended, other = inflight.token, [tk for tk in toks if tk != inflight.token][0]
+            # how: 0 Reset for the in-flight notification / 1 the in-flight one is acknowledged (control) / 2 deregistering GET on its token
+            if how == 0:
+                S.deliver(Message(code=EMPTY, _mtype=RST, _mid=act[0][1]).encode(), src)
+            elif how == 1:
+                S.deliver(Message(code=EMPTY, _mtype=ACK, _mid=act[0][1]).encode(), src)
+                ended = None
+            else:
+                S.deliver(Message(code=GET, _mtype=CON, _mid=600, _token=ended, uri_path=["o"], observe=1).encode(), src)
+            loop.advance(5)
+            if later_change:
+                res.state += 1
+                res.updated_state()
+                loop.run_ready()
+            for _ in range(6):
+                for k in [k for k in S.mman._active_exchanges if k[0].sockaddr[:2] == src[:2]]:
+                    S.deliver(Message(code=EMPTY, _mtype=ACK, _mid=k[1]).encode(), src)
+                loop.advance(7)
+            assert res.counts[-1] == (2 if ended is None else 1), "observer count after one of two registrations ended"
+            out = [Message.decode(d) for (d, a, tm) in S.tr.sent]
+            for tk in toks:
+                if tk == ended:
+                    continue
+                mine = [o for o in out if o.token == tk and o.opt.observe is not None]
+                assert mine[-1].payload == b"s%d" % res.state, "a live registration was not notified of the latest state"
+                obsv = [o.opt.observe for o in mine]
+                assert all(b > a for a, b in zip(obsv, obsv[1:]))
+            assert loop.exceptions == []
+        assert not reach, "reach"
+    return h
+
+
 def obligations(tier):
     q = tier == "quick"
     depth = 3 if q else 4
@@ -459,6 +533,9 @@ def obligations(tier):
     obs.append(Obligation("observe-ends-during-first-render", mk_first_render, 280 if q else 900, functions=FUNCS,
                           symbolic={"how it ends": "index over %s" % FIRST_ENDS, "registration type": "CON / NON", "instant": "0..6 ticks into a rendering of 5 ticks"},
                           stubs=["SimLoop", "FakeDatagramTransport", "integer tuning", "random stubs"]))
+    obs.append(Obligation("observe-two-registrations-one-endpoint", mk_two_same_endpoint, 200 if q else 600, functions=FUNCS,
+                          symbolic={"what happens to the in-flight notification": "Reset / ACK / deregistering GET on its token", "further change afterwards": "bool", "registration order": "bool"},
+                          concrete={"registrations": "two CON registrations from one endpoint, tokens 09 and 0a; one change puts one notification in flight and queues the other"}))
     # known finding D20: registration ended while notifications of it wait in the NSTART backlog
     for nm, kinds in (("rst", ("rst",)), ("new-request", ("rereg", "plainget", "dereg"))):
         obs.append(Obligation("observe-backlog-after-end-%s" % nm, mk_obs(0, 3, False, True, d20="include", only=(0, kinds)), 120, functions=FUNCS,
